@@ -287,6 +287,42 @@ def walk_tsig_rdata(w, pos, rdlen):
 
 
 OPAQUE_TYPES = {10} | set(range(65280, 65535))
+SIMPLE_TYPES = {1, 2, 5, 6, 12, 15, 16, 28}
+
+
+def simple_rdata_ok(w, rr):
+    """class IN records of a few ordinary types: is the rdata well-formed (so that the library's
+    typed parse and the model's opaque skip agree)?  independent of the library"""
+    if rr["cls"] != 1 or rr["rdata"] + rr["rdlen"] > len(w):
+        return False
+    p, n, t = rr["rdata"], rr["rdlen"], rr["type"]
+    end = p + n
+    try:
+        if t == 1:
+            return n == 4
+        if t == 28:
+            return n == 16
+        if t in (2, 5, 12):
+            _, q = walk_name(w, p, end)
+            return q == end
+        if t == 15:
+            if n < 3:
+                return False
+            _, q = walk_name(w, p + 2, end)
+            return q == end
+        if t == 6:
+            _, q = walk_name(w, p, end)
+            _, q = walk_name(w, q, end)
+            return q + 20 == end
+        if t == 16:
+            if n < 1:
+                return False
+            while p < end:
+                p += 1 + w[p]
+            return p == end
+    except Malformed:
+        return False
+    return False
 
 
 def rfc_verdict(w, keyname, secret, keyalg, request_mac, now, running=None):
@@ -1046,6 +1082,25 @@ def read_case(w, kr, keys, rmac, now, ctx=None, multi=0):
     return [6, w, kr, rmac, ctx, multi, now, table(*ents)]
 
 
+def gen_realistic_read_case(rng):
+    """an ordinary query/response (A, NS, SOA, MX, TXT, AAAA; no EDNS) signed per the RFC, genuine or with one bit flipped"""
+    for _ in range(20):
+        body = realistic_message(rng)
+        if not any(r["type"] == 41 for r in walk(body)["rrs"]):
+            break
+    k = gen_key(rng, 0)
+    full, k, rmac, time, fudge, mac, start = signed_wire(rng, wire=body, k=k)
+    now = time + rng.choice([0, fudge, -fudge])
+    kind = "realistic"
+    if rng.random() < 0.6:
+        kind = "realistic-flip"
+        b = bytearray(full)
+        i = rng.randrange(len(b) * 8)
+        b[i // 8] ^= 1 << (i % 8)
+        full = bytes(b)
+    return kind, read_case(full, [1, k], [k], rmac, now)
+
+
 RKINDS = ["genuine", "genuine", "case", "compressed", "flip", "flip", "flip", "nokeyring", "kr-true", "kr-false", "dict", "dict-bytes",
           "dict-miss", "secret", "time", "rmac", "error", "notlast", "notlast-sec", "class", "two", "ttl", "trailing", "trunc",
           "unsigned", "multi", "chain", "chain-unsigned"]
@@ -1268,6 +1323,9 @@ def cases(ctx):
     for _ in range(ctx.n(280, 4000)):
         kind, c = gen_read_case(rng)
         yield "read:" + kind, c
+    for _ in range(ctx.n(60, 1500)):
+        kind, c = gen_realistic_read_case(rng)
+        yield "read:" + kind, c
     for _ in range(ctx.n(24, 600)):
         yield from gen_stream_cases(rng)
 
@@ -1287,7 +1345,8 @@ def in_model(kind, case):
                 return False
             for r in info["rrs"]:
                 if r["type"] != 250 and r["type"] not in OPAQUE_TYPES:
-                    return False
+                    if not (r["type"] in SIMPLE_TYPES and simple_rdata_ok(bytes(w), r)):
+                        return False
     return True
 
 
